@@ -313,6 +313,9 @@ def load_performance_midi(
             )
         for meta in pp.meta_other:
             meta["time"] = adjust_time(meta["time_tick"], tempo_changes, ppq)
+        # the sounding ends were computed from the times before the tempo map
+        # was applied: compute them again from the adjusted times
+        pp.sustain_pedal_threshold = pp.sustain_pedal_threshold
 
     perf = performance.Performance(
         id=doc_name,
